@@ -204,7 +204,31 @@ CONTRACTS = {
     returns=('joinstr', '', 'strline'),
     ensures=[('one-line-per-student-in-student-order', 'len(joined(result)) == self.num_students'),
              ('each-line-shows-the-students-matched-pair-or-no-assignment', 'forall(i, 0, self.num_students, final_ok(joined(result)[i], i))')]),
- M + '_get_detailed_project_info': dict(pure_text=True),
+ # C11 long format: one line per project in project order: p_<j> (l_<lecturer>): then the assigned students (or "no assignment"), then occupancy/capacity.
+ # Listing view of the text (pyvc/models_text.py): blank-separated tokens; "3/5" is seen as the two numbers 3, 5; the line break is the token NL.
+ M + '_get_detailed_project_info': dict(
+    params=PA, requires=PRE + [('one-lecturer-and-capacity-per-project', 'len(self.proj_lecturers) == self.num_projects and len(self.proj_upper_quotas) == self.num_projects')],
+    locals={'p_assignments': ('list', ('list', 'tok')), 'pr_lines': ('list', ('list', 'tok'))}, symbolic_repeat=True,
+    defs={'cnt': (['j', 'upto'], 'Count(q, upto, pair_assignments[q].project_index == j)'),
+          'is_s': (['t', 'q'], 'kind(t) == 5 and value(t) == pair_assignments[q].studentID'),
+          # the first `upto` pairs: project j's string holds one token s_<student> per pair of project j (each such pair appears, nothing else does)
+          'students_ok': (['L', 'j', 'upto'], 'len(L) == cnt(j, upto) and forall(t, 0, len(L), exists(q, 0, upto, pair_assignments[q].project_index == j and is_s(L[t], q)))'
+                          ' and forall(q, 0, upto, implies(pair_assignments[q].project_index == j, exists(t, 0, len(L), is_s(L[t], q))))'),
+          'n': ([], 'len(pair_assignments)'),
+          'line_ok': (['L', 'j'], 'kind(L[0]) == 6 and value(L[0]) == j + 1 and kind(L[1]) == 7 and value(L[1]) == self.proj_lecturers[j]'
+                      ' and ite(cnt(j, n()) == 0, len(L) == 7 and kind(L[2]) == 11 and kind(L[3]) == 12,'
+                      '     len(L) == 5 + cnt(j, n()) and forall(t, 2, 2 + cnt(j, n()), exists(q, 0, n(), pair_assignments[q].project_index == j and is_s(L[t], q)))'
+                      '     and forall(q, 0, n(), implies(pair_assignments[q].project_index == j, exists(t, 2, 2 + cnt(j, n()), is_s(L[t], q)))))'
+                      ' and kind(L[len(L) - 3]) == 0 and value(L[len(L) - 3]) == cnt(j, n()) and kind(L[len(L) - 2]) == 0 and value(L[len(L) - 2]) == self.proj_upper_quotas[j]'
+                      ' and kind(L[len(L) - 1]) == 13')},
+    loops={0: dict(invariant=['len(p_assignments) == self.num_projects', 'len(p_num_assignments) == self.num_projects',
+                              'forall(j, 0, self.num_projects, students_ok(p_assignments[j], j, _k) and p_num_assignments[j] == cnt(j, _k))']),
+           1: dict(invariant=['len(pr_lines) == self.num_projects', 'forall(j, 0, _k, line_ok(pr_lines[j], j))', 'forall(j, _k, self.num_projects, len(pr_lines[j]) == 0)'])},
+    # proof cut at the end of every iteration of the second loop: the project's own tokens follow the two header tokens (gives the witness t + 2)
+    asserts={'loop1.body_end': [('the-assignee-tokens-follow-the-two-header-tokens', 'forall(t, 0, len(entry), kind(pr_lines[j][t + 2]) == kind(entry[t]) and value(pr_lines[j][t + 2]) == value(entry[t]), entry[t])')]},
+    returns=('joinstr', '', ('list', 'tok')),
+    ensures=[('one-line-per-project-in-project-order', 'len(joined(result)) == self.num_projects'),
+             ('each-line-names-the-project-its-lecturer-exactly-its-assignees-and-occupancy-over-capacity', 'forall(j, 0, self.num_projects, line_ok(joined(result)[j], j))')]),
  M + '_get_detailed_lecturer_info': dict(pure_text=True),
 
  # ---- reading the matching back from the solution values (C01)
